@@ -158,13 +158,13 @@ class World(object):
         if mode == 'sync':
             self.module = m['sync']
             self.module.Lock = _SLock
-            self.module.time = self.clock
+            env.bind_time(self.clock, self.module)
             self.device = self.module.AdbDevice(MemT(self.core, self.gate), banner=b'verif')
             self.sched = sched.ThreadSched()
         else:
             self.module = m['asyn']
             self.module.Lock = _ALock
-            self.module.time = self.clock
+            env.bind_time(self.clock, self.module)
             self.device = self.module.AdbDeviceAsync(MemTA(self.core, self.gate), banner=b'verif')
             self.sched = sched.TaskSched()
         io = self.device._io_manager
